@@ -1506,6 +1506,16 @@ fn main() {
             let skip: Vec<String> = args.get(5).map(|s| s.split(',').map(|x| x.to_string()).collect()).unwrap_or_default();
             println!("{}", search(&args[2], seed, budget, &skip));
         }
+        // `runfile <path>`: compile AND run an Incan program through the real pipeline (front end, code generator, project
+        // generator, cargo, the program itself): what `incan run <path>` does. Program output goes to stdout; exit code:
+        // the program's, or 3 when the compiler or cargo reported an error (message on stderr).
+        #[cfg(feature = "lsp")]
+        "runfile" => {
+            match incan::cli::commands::run_file(&args[2]) {
+                Ok(code) => std::process::exit(code.0),
+                Err(e) => { eprintln!("COMPILER-ERROR: {}", e.message); std::process::exit(3); }
+            }
+        }
         _ => std::process::exit(2),
     }
 }
